@@ -324,10 +324,26 @@ def run_property(ctx, prop, oracle, gen=None, quick=150, thorough=3000, model=Tr
     if model:
         replies = C.lean_batch(DRIVER, [json.dumps(sc) for sc in scs], timeout=3000)
         models = [canon_model(json.loads(r)) for r in replies]
+    dropped = 0
     for idx, (sc, o) in enumerate(zip(scs, impl)):
         if "crash" in o:
             res.notes.append("harness crash: " + o["crash"])
             continue
+        # A scenario under SimLoop is a deterministic function of its script.  The first pass runs in a pool of forked
+        # workers; if it produced a verdict (oracle violation or model/implementation difference), the scenario is run
+        # again, alone, in this process, and only a verdict that shows up again is reported.  (Seen once under extreme
+        # machine load: a worker's observation of one scenario of a sweep family was that of a neighbouring arrival index.)
+        suspicious = bool(oracle(sc, o)) or (models is not None and diff(models[idx], canon_impl(o)) is not None)
+        if suspicious and workers > 1:
+            o2 = _impl_worker(sc)
+            if "crash" not in o2 and canon_impl(o2) != canon_impl(o):
+                o3 = _impl_worker(sc)
+                if "crash" not in o3 and canon_impl(o3) == canon_impl(o2):
+                    dropped += 1
+                    res.count("harness:first-pass-observation-not-reproducible")
+                    res.notes.append(f"scenario #{idx}: the pooled first pass differed from two identical serial re-runs; the re-run is used")
+                    o = o2
+                    impl[idx] = o2
         fs = features(sc, o)
         nontriv = bool(fs - {"ret:return", "arr:S1", "arr:S4", "state:running", "state:idle"})
         res.seen(sc, nontriv)
@@ -338,7 +354,8 @@ def run_property(ctx, prop, oracle, gen=None, quick=150, thorough=3000, model=Tr
         if models is not None:
             d = diff(models[idx], canon_impl(o))
             if d:
-                res.disagreements.append({"case": sc, "first_difference": d})
+                res.disagreements.append({"case": sc, "first_difference": d, "impl": {k: o.get(k) for k in ("arrivals", "trans", "returns", "refused", "notes", "msgs")},
+                                          "model": {k: models[idx].get(k) for k in ("arrivals", "trans", "returns", "refused", "msgs")}})
     for i in (0, len(scs) // 2, len(scs) - 1):
         if 0 <= i < len(scs) and "crash" not in impl[i]:
             res.samples.append({"scenario": scs[i], "impl": {k: impl[i][k] for k in ("trans", "returns", "arrivals", "docs")}, "model_agrees": (models is None) or diff(models[i], canon_impl(impl[i])) is None})
